@@ -2,7 +2,8 @@
 # tools/seedmatrix.sh [id ...]   apply every seeded change (seeded/<id>/patch_*.diff) to /repo in turn, run that
 # property's quick check (plus any ids listed in meta "also"), revert; writes seeded/matrix.tsv:
 #   <id> <patch> <check> CAUGHT|missed|broken <rc> <seconds> <first violation signature>
-cd /verif || exit 2
+V=${VERIF_DIR:-/verif}; REPO=${VERIF_REPO:-/repo}   # (a scratch pair can be given so that /repo stays untouched)
+cd $V || exit 2
 IDS=${*:-$(ls seeded | grep '^C')}
 OUT=seeded/matrix.tsv
 TMP=$(mktemp)
@@ -10,8 +11,8 @@ TMP=$(mktemp)
 for id in $IDS; do
   for p in seeded/$id/patch_${ONLY:-*}.diff; do
     [ -f "$p" ] || continue
-    if [ -n "$(git -C /repo status --porcelain)" ]; then echo "/repo not clean" >&2; exit 2; fi
-    if ! git -C /repo apply "/verif/$p"; then echo "$id $p - broken 2 0 does-not-apply" >> $TMP; continue; fi
+    if [ -n "$(git -C $REPO status --porcelain)" ]; then echo "$REPO not clean" >&2; exit 2; fi
+    if ! git -C $REPO apply "$V/$p"; then echo "$id $p - broken 2 0 does-not-apply" >> $TMP; continue; fi
     for chk in $id; do
       t0=$(date +%s)
       out=$(VERIF_SEED=${VERIF_SEED:-0} ./check $chk --tier quick 2>&1); rc=$?
@@ -22,7 +23,7 @@ for id in $IDS; do
       printf '%s\t%s\t%s\t%s\t%s\t%s\t%s\n' "$id" "$p" "$chk" "$v" "$rc" "$((t1-t0))" "$sig" >> $TMP
       echo "$id $p $chk $v rc=$rc $((t1-t0))s $sig"
     done
-    git -C /repo checkout -- .
+    git -C $REPO checkout -- .
   done
 done
 sort $TMP > $OUT; rm -f $TMP
